@@ -38,7 +38,8 @@ func init() {
 	kit.Register(&kit.Spec{
 		ID: "C04",
 		Rule: "reflect-filler instances: every tx type x every payload version constant x tx version {0 only for type<=0x08, 9} x random output payload types; " +
-			"blocks of n=1..40 small txs of random kinds; headers +-auxpow; DposBlock/DPOSHeader +-confirm; p2p messages. " +
+			"blocks of n=1..40 small txs of random kinds; headers +-auxpow; DposBlock/DPOSHeader +-confirm; p2p messages; " +
+			"boundary pass: each var-length site of each type at lengths {252..256, 65535, 65536} within the decoder cap, var-int valued fields at {0xfc,0xfd,0xfe,0xffff,0x10000,0xffffffff,0x100000000}. " +
 			"distinct = distinct serialised bytes; non-trivial = value encoded, decoded and had >=1 populated leaf",
 		Shards: func(tier string) int { return 8 },
 		Run:    runC04,
@@ -50,7 +51,8 @@ func init() {
 		},
 		// safety net only: byte flips may steer a decoder into a count-sized allocation (C02's subject)
 		MemLimitMB: 8192,
-		Require:    []string{"tx_roundtrips", "tx_hash_checks", "program_variants_checked", "unsigned_flips_decoded", "unsigned_flips_hash_changed", "closure_checks", "leaf_mutations_hash_changed", "leaf_mutations_outside_unsigned", "block_roundtrips", "dposblock_roundtrips", "header_roundtrips", "p2p_roundtrips", "sensitivity_probes", "leaf_keys_carried", "txloc_checks"},
+		Require: []string{"tx_roundtrips", "tx_hash_checks", "program_variants_checked", "unsigned_flips_decoded", "unsigned_flips_hash_changed", "closure_checks", "leaf_mutations_hash_changed", "leaf_mutations_outside_unsigned", "block_roundtrips", "dposblock_roundtrips", "header_roundtrips", "p2p_roundtrips", "sensitivity_probes", "leaf_keys_carried", "txloc_checks",
+			"boundary_lengths_covered", "boundary_sites_covered", "boundary_len:252", "boundary_len:253", "boundary_len:254", "boundary_len:255", "boundary_len:256", "boundary_len:65535", "boundary_len:65536", "boundary_varuint_values", "boundary_blocks"},
 		Assumptions: []string{
 			"well-formedness is defined by the wire format: type byte > 0x08 only with tx version >= 0x09; outputs of a version-0 tx have no type/payload; platform-int fields hold values in [0,2^31)",
 			"fields that a given payload version does not carry (measured: perturbing the leaf leaves the bytes unchanged) need not survive that version's round trip, but every field must be carried by at least one generated (type, version)",
@@ -73,12 +75,20 @@ type rtJudge struct {
 	cov   *filler.Coverage
 	sens  bool           // run full per-leaf sensitivity
 	gated map[string]int // key -> number of tolerated (not carried in that instance) differences
+	// tolerate: difference paths already classified as "not carried" on the base
+	// instance of the same seed (boundary pass: only one site differs from it).
+	tolerate  map[string]bool
+	lastGated []string // paths classified as not carried by the last run
+	what      string   // extra context for violation details (boundary pass: type and field)
 }
 
 func (j *rtJudge) run(name string, seed uint64, codec filler.Codec) *filler.Outcome {
 	c := j.c
 	o := filler.RoundTrip(j.cfg, seed, codec)
 	cas := map[string]interface{}{"class": name, "filler_seed": fmt.Sprint(seed)}
+	if j.what != "" {
+		cas["what"] = j.what
+	}
 	if o.EncErr != nil {
 		c.Inconclusive("generator produced an unencodable %s (seed %d): %v", name, seed, o.EncErr)
 		return nil
@@ -92,7 +102,7 @@ func (j *rtJudge) run(name string, seed uint64, codec filler.Codec) *filler.Outc
 	}
 	if o.DecErr != nil {
 		cas["bytes"] = kit.Hex(clip(o.Bytes, 600))
-		c.Violate("decode-rejects:"+name, fmt.Sprintf("Deserialize rejected the bytes Serialize produced for a well-formed %s: %v", name, o.DecErr), cas)
+		c.Violate("decode-rejects:"+name, fmt.Sprintf("Deserialize rejected the bytes Serialize produced for a well-formed %s %s: %v", name, j.what, o.DecErr), cas)
 		c.Case(string(o.Bytes), false)
 		return nil
 	}
@@ -126,8 +136,13 @@ func (j *rtJudge) run(name string, seed uint64, codec filler.Codec) *filler.Outc
 		carriedCache[k] = r
 		return r
 	}
+	j.lastGated = j.lastGated[:0]
 	if !o.Unordered {
 		for _, d := range o.Diffs {
+			if j.tolerate[d.Path] {
+				c.Inc("gated_diffs")
+				continue
+			}
 			carried, under := false, 0
 			for k, l := range o.Leaves {
 				if filler.PathUnder(l.Path, d.Path) {
@@ -147,6 +162,7 @@ func (j *rtJudge) run(name string, seed uint64, codec filler.Codec) *filler.Outc
 				lost = true
 			} else {
 				c.Inc("gated_diffs")
+				j.lastGated = append(j.lastGated, d.Path)
 				if j.gated != nil {
 					j.gated[d.Key]++
 				}
@@ -292,6 +308,9 @@ func runC04(c *kit.Ctx) {
 
 	// ---------------- (3) p2p messages ----------------
 	c04P2P(c, j, r.Uint64())
+
+	// ---------------- (4) var-int boundary lengths / counts / values ----------------
+	c04Boundary(c, j, r.Uint64())
 
 	// which fields were exempted because the version at hand does not carry them
 	if c.Shard == 0 {
